@@ -87,17 +87,23 @@ var Spaces = []API{
 	{
 		Name: "prophotorgb", Ref: ref.ProPhoto,
 		From8: prophotorgb.From8Bit, From16: prophotorgb.From16Bit, To8: prophotorgb.To8Bit, To16: prophotorgb.To16Bit,
-		FromNRGBA:       func(c color.NRGBA) (linear.RGB, float32) { x, a := prophotorgb.ColorFromNRGBA(c); return x.RGB, a },
-		FromRGBA:        func(c color.RGBA) (linear.RGB, float32) { x, a := prophotorgb.ColorFromRGBA(c); return x.RGB, a },
-		FromEncoded:     func(c color.Color) (linear.RGB, float32) { x, a := prophotorgb.ColorFromEncodedColor(c); return x.RGB, a },
-		FromLinearColor: func(c color.Color) (linear.RGB, float32) { x, a := prophotorgb.ColorFromLinearColor(c); return x.RGB, a },
-		FromLinear:      func(r, g, b float32) linear.RGB { return prophotorgb.ColorFromLinear(r, g, b).RGB },
-		FromXYZ:         func(c ciexyz.Color) linear.RGB { return prophotorgb.ColorFromXYZ(c).RGB },
-		ToXYZ:           func(c linear.RGB) ciexyz.Color { return prophotorgb.Color{RGB: c}.ToXYZ() },
-		ToNRGBA:         func(c linear.RGB, a float32) color.NRGBA { return prophotorgb.Color{RGB: c}.ToNRGBA(a) },
-		ToRGBA:          func(c linear.RGB, a float32) color.RGBA { return prophotorgb.Color{RGB: c}.ToRGBA(a) },
-		ToRGBA64:        func(c linear.RGB, a float32) color.RGBA64 { return prophotorgb.Color{RGB: c}.ToRGBA64(a) },
-		LineariseColor:  prophotorgb.LineariseColor, EncodeColor: prophotorgb.EncodeColor,
+		FromNRGBA: func(c color.NRGBA) (linear.RGB, float32) { x, a := prophotorgb.ColorFromNRGBA(c); return x.RGB, a },
+		FromRGBA:  func(c color.RGBA) (linear.RGB, float32) { x, a := prophotorgb.ColorFromRGBA(c); return x.RGB, a },
+		FromEncoded: func(c color.Color) (linear.RGB, float32) {
+			x, a := prophotorgb.ColorFromEncodedColor(c)
+			return x.RGB, a
+		},
+		FromLinearColor: func(c color.Color) (linear.RGB, float32) {
+			x, a := prophotorgb.ColorFromLinearColor(c)
+			return x.RGB, a
+		},
+		FromLinear:     func(r, g, b float32) linear.RGB { return prophotorgb.ColorFromLinear(r, g, b).RGB },
+		FromXYZ:        func(c ciexyz.Color) linear.RGB { return prophotorgb.ColorFromXYZ(c).RGB },
+		ToXYZ:          func(c linear.RGB) ciexyz.Color { return prophotorgb.Color{RGB: c}.ToXYZ() },
+		ToNRGBA:        func(c linear.RGB, a float32) color.NRGBA { return prophotorgb.Color{RGB: c}.ToNRGBA(a) },
+		ToRGBA:         func(c linear.RGB, a float32) color.RGBA { return prophotorgb.Color{RGB: c}.ToRGBA(a) },
+		ToRGBA64:       func(c linear.RGB, a float32) color.RGBA64 { return prophotorgb.Color{RGB: c}.ToRGBA64(a) },
+		LineariseColor: prophotorgb.LineariseColor, EncodeColor: prophotorgb.EncodeColor,
 		LineariseImage: prophotorgb.LineariseImage, EncodeImage: prophotorgb.EncodeImage,
 		PrimR: func() ciexyy.Color { return prophotorgb.PrimaryRed }, PrimG: func() ciexyy.Color { return prophotorgb.PrimaryGreen },
 		PrimB: func() ciexyy.Color { return prophotorgb.PrimaryBlue }, White: func() ciexyy.Color { return prophotorgb.StandardWhitePoint },
